@@ -78,6 +78,64 @@ func extraWorkloads(r *mon.Run, rec *recorder) {
 	factoryTransports(r, rec)
 	slicesOfLargerBuffers(r, rec)
 	lastBytesWithEOF(r, rec)
+	closeDuringReceive(r, rec)
+}
+
+// closeDuringReceive: the owner of a transport closes it from another goroutine while Receive is
+// waiting inside a frame (the usual way to end a blocked Receive). The stream has ended inside a
+// frame: Receive reports an error — no panic, no message — and returns.
+func closeDuringReceive(r *mon.Run, rec *recorder) {
+	for run := 0; run < r.Pick(60, 600); run++ {
+		rng := r.Rand(fmt.Sprintf("close-during-receive|%d", run))
+		n := []int{1, 5, 300, 0x10000, 0x1FFFF}[run%5]
+		p := make([]byte, n)
+		frame, _ := refEncode(p)
+		// how much of the frame has arrived when Close is called: inside the header, exactly the
+		// header, inside the payload
+		arrived := []int{1 + rng.IntN(3), 4, 4 + rng.IntN(n)}[run%3]
+		a, b := net.Pipe()
+		t := nbt.NewNBTTransportFromConn(a)
+		type res struct {
+			got []byte
+			err error
+			pan bool
+			pv  any
+			st  string
+		}
+		done := make(chan res, 1)
+		go func() {
+			var x res
+			x.pan, x.pv, x.st = mon.Guard(func() { x.got, x.err = t.Receive() })
+			done <- x
+		}()
+		// a write on a pipe returns once the reader has taken the bytes: the receiver is then
+		// inside the frame, waiting for more
+		b.SetWriteDeadline(time.Now().Add(10 * time.Second))
+		if _, err := b.Write(frame[:arrived]); err != nil {
+			rec.Count("close_during_receive_setup_failed", 1)
+			a.Close()
+			b.Close()
+			continue
+		}
+		closed := make(chan struct{})
+		go func() { mon.Guard(func() { t.Close() }); close(closed) }()
+		cs := map[string]any{"frame_octets": len(frame), "arrived_before_close": arrived}
+		rec.Eval(1)
+		select {
+		case x := <-done:
+			switch {
+			case x.pan:
+				rec.Violation(run, "Receive:close-during-receive:panic", sprintf("Close from another goroutine after %d of %d octets of a frame had arrived: Receive panicked: %v at %s", arrived, len(frame), x.pv, mon.TopLibFrame(x.st)), cs)
+			case x.err == nil:
+				rec.Violation(run, "Receive:close-during-receive:message", sprintf("Close from another goroutine after %d of %d octets of a frame had arrived: Receive returned a %d-octet message and no error", arrived, len(frame), len(x.got)), cs)
+			}
+		case <-time.After(20 * time.Second):
+			rec.Inconclusive(sprintf("close-during-receive: Receive did not return within 20 s of Close (%d of %d octets arrived)", arrived, len(frame)))
+		}
+		b.Close()
+		<-closed
+		rec.Nontrivial(sprintf("close-during-receive|%d|%d", n, run%3))
+	}
 }
 
 // slicesOfLargerBuffers: the payload is a window of a much larger buffer (len << cap), as with a
@@ -231,7 +289,17 @@ func factoryRun(rec *recorder, si int, what, key string, t factoryXport, addr st
 			f, _ := refEncode(p)
 			want = append(want, f...)
 		}
+		// a payload of no octets, spelled as a nil slice
+		if _, err := t.Send(nil); err != nil {
+			problem = sprintf("Send of a zero-length payload (nil slice) refused: %v", err)
+		} else {
+			f, _ := refEncode(nil)
+			want = append(want, f...)
+		}
 		for _, n := range over {
+			if problem != "" {
+				break
+			}
 			if _, err := t.Send(make([]byte, n)); err == nil {
 				problem = sprintf("Send of %d octets (beyond the 17-bit length) accepted", n)
 			}
